@@ -41,6 +41,9 @@ fn main() {
         "C05" => sweep_cmd(Prop::C05, &["nest", "nestlook", "core", "capback", "onechar"]),
         "C09" => sweep_cmd(Prop::C09, &["core", "capback", "look", "utf8", "lit", "onechar"]),
         "C13" => sweep_cmd(Prop::C13, &["core", "look", "nest", "icase", "lit", "onechar", "mods", "utf8"]),
+        "C16" => simple_cmd("C16", mc::apichecks::c16),
+        "C17" => simple_cmd("C17", mc::apichecks::c17),
+        "C18" => simple_cmd("C18", mc::apichecks::c18),
         _ => usage(),
     };
     std::process::exit(code);
@@ -58,5 +61,11 @@ fn sweep_cmd(prop: Prop, default_profiles: &[&'static str]) -> i32 {
         "bounded: pattern size, haystack length and alphabets as listed under coverage.profiles".into(),
     ];
     let stats = sweep::run(&mut run, prop, &profs);
+    run.finish(&stats)
+}
+
+fn simple_cmd(id: &str, f: fn(&mut Run) -> mc::report::Stats) -> i32 {
+    let mut run = Run::new(id, "model_checking");
+    let stats = f(&mut run);
     run.finish(&stats)
 }
